@@ -38,6 +38,9 @@ ASSUMPTIONS = [
     "ONNX Runtime (optimisations off) executes the translated graph; onnx.reference may only dispute a mismatch",
     "a scalar tensor index is read by NumPy as a Python int (basic indexing), a 1-D tensor index as an int64 array",
     "eager results are read from the value returned by calling the script function with numpy arrays",
+    "ORT sessions that eager mode creates without options are given 1 thread (harness-side default; results unaffected)",
+    "c11_spec (Slice-13/Gather-13/Squeeze-13 transcribed from the operator spec) arbitrates ORT-vs-onnx.reference "
+    "disagreements: a dispute by onnx.reference is void when the transcription sides with ORT",
 ]
 ANCHORS = [
     "onnxscript._internal.converter:Converter._translate_subscript_expr",
@@ -100,7 +103,7 @@ def cases(tier, seed):
                                 "cap": 1, "tag": "r2x"})
     # stratified samples (rank 2 and 3; all 12 classes incl. tensor-valued components)
     rnd = common.rng(PID, seed, "sample", tier)
-    n2, n3 = (24, 6) if thorough else (6, 1)
+    n2, n3 = (24, 6) if thorough else (10, 2)
     by_shape = {}
     for shape, expr in G.sampled_exprs(2, n2, rnd, [1, 2, 3]):
         by_shape.setdefault((tuple(shape), "r2s"), []).append(expr)
@@ -131,6 +134,7 @@ def worker_init():
     from . import probes
 
     _state["dir"] = common.scratch_dir("vf-c11-")
+    _single_thread_ort()
 
     def ev_before(self, op, args, kwargs):
         if _state["eager_ops"] is not None:
@@ -153,6 +157,28 @@ def worker_init():
         _state["eager_ops"] = tok
 
     probes.wrap_method(ostensor.Tensor, "__getitem__", before=gi_before, after=gi_after, on_exc=gi_exc)
+
+
+def _single_thread_ort():
+    """Eager mode builds one InferenceSession per operator call with default options (= one thread pool of ncpu threads
+    per call, ~30 ms on a loaded box).  Sessions created *without* options get 1 intra/inter-op thread instead; nothing
+    else changes (thread count does not affect results of Slice/Gather/Squeeze/Add)."""
+    import onnxruntime as ort
+
+    if getattr(ort.InferenceSession, "_vf_single_thread", False):
+        return
+    orig = ort.InferenceSession.__init__
+
+    def init(self, path_or_bytes, sess_options=None, *a, **k):
+        if sess_options is None:
+            sess_options = ort.SessionOptions()
+            sess_options.intra_op_num_threads = 1
+            sess_options.inter_op_num_threads = 1
+            sess_options.log_severity_level = 4
+        return orig(self, path_or_bytes, sess_options, *a, **k)
+
+    ort.InferenceSession.__init__ = init
+    ort.InferenceSession._vf_single_thread = True
 
 
 def _import_source(src):
@@ -327,12 +353,30 @@ def run_case(spec):
                      f"{' with ' + str(bindings[bi]) if bindings[bi] else ''}: {text}", "detail": det})
 
     def _disputes(path, unit, oi, ei, bi, got):
-        """onnx.reference agrees with NumPy where ORT does not -> disputed, unless the spec transcription
-        (c11_spec) sides with ORT, in which case the runtime is not wrong and the dispute is void."""
+        """Asymmetric trust (DESIGN 2.3, external-oracle form): a difference ORT-vs-NumPy is *disputed* when the
+        runtime, not the graph, is wrong.  Witnesses: the spec transcription (c11_spec) and onnx.reference.
+        spec == ORT  -> the runtime is right, dispute void (onnx.reference's Slice is NumPy slicing and would
+                        otherwise 'dispute' exactly the emitted nodes that do not mean what NumPy means);
+        spec == NumPy or (spec unavailable and reference == NumPy) -> disputed."""
         from onnxscript._internal import evaluator
 
         from . import c11_spec, runner
 
+        spec = None
+        try:
+            if path == "graph":
+                spec = c11_spec.run_model(unit.model, unit.feeds(X, bindings[bi]))
+            else:
+                with evaluator.default_as(c11_spec.make_evaluator()):
+                    spec = unit.eager_run(X, bindings[bi])
+        except Exception:
+            spec = None
+        if spec is not None:
+            if _differs(spec[oi], got) is None:
+                hit(f"{path}_reference_dispute_void_spec_sides_with_ort")
+                return False
+            if _differs(spec[oi], want[(ei, bi)]) is None:
+                return True
         try:
             if path == "graph":
                 st, outs = runner.ref_run(unit.model, unit.feeds(X, bindings[bi]))
@@ -341,22 +385,9 @@ def run_case(spec):
             else:
                 with evaluator.default_as(evaluator.OnnxReferenceRuntimeEvaluator()):
                     outs = unit.eager_run(X, bindings[bi])
-            if _differs(outs[oi], want[(ei, bi)]) is not None:
-                return False
+            return _differs(outs[oi], want[(ei, bi)]) is None
         except Exception:
             return False
-        try:
-            if path == "graph":
-                spec = c11_spec.run_model(unit.model, unit.feeds(X, bindings[bi]))
-            else:
-                with evaluator.default_as(c11_spec.make_evaluator()):
-                    spec = unit.eager_run(X, bindings[bi])
-            if _differs(spec[oi], got) is None:
-                hit(f"{path}_dispute_void_spec_sides_with_ort")
-                return False
-        except Exception:
-            pass
-        return True
 
     bundle = Unit(exprs, dtype, var_names) if len(exprs) > 1 else None
     if bundle is not None and bundle.error:
